@@ -544,6 +544,14 @@ theorem closed_still_changes (s : State) (_h : s.isClosed = true) :
   refine ⟨fun sid r => ?_, fun _ _ _ => rfl, fun _ => rfl⟩
   rw [recvReset_spec]; simp
 
+/-- consequence worth knowing: a late RST_STREAM from the peer, arriving while frames of the
+    stream are still queued, erases a *scheduled library reset* (the state no longer
+    `is_scheduled_reset`, the reason that was to be sent is gone) -/
+example (r : Reason) (sid : Nat) (r' : Reason) :
+    (State.mk (.closed (.scheduledLibraryReset r))).isScheduledReset = true ∧
+    ((State.mk (.closed (.scheduledLibraryReset r))).recvReset sid r' true).isScheduledReset = false :=
+  ⟨rfl, rfl⟩
+
 /-- a closed state stays closed under every transition (phase level) -/
 theorem closed_stays_closed (s : State) (h : phase s = .closed) :
     (∀ eos, phase (s.sendOpen eos).1 = .closed) ∧
@@ -724,44 +732,29 @@ structure WF (s : State) (g : Ghost) : Prop where
 theorem WF.init : WF {} {} := by
   constructor <;> simp [State.isRecvEndStream, State.isClosed]
 
-set_option maxHeartbeats 1600000 in
+/-- the simp set that evaluates one transition on a concrete state shape -/
+macro "wf_step " f:ident : tactic =>
+  `(tactic| first
+    | assumption
+    | (rename_i h
+       obtain ⟨h1, h2, h3, h4, h5, h6, h7, h8⟩ := h
+       constructor <;>
+         simp_all [Op.apply, Op.ghost, $f:ident, State.isRecvEndStream, State.isClosed]))
+
 theorem WF.step {s : State} {g : Ghost} (op : Op) (h : WF s g) : WF (op.apply s) (op.ghost s g) := by
-  obtain ⟨h1, h2, h3, h4, h5, h6, h7, h8⟩ := h
   rcases g with ⟨a, b, c⟩
   cases op with
-  | sendOpen eos =>
-    state_cases s <;> cases eos <;> constructor <;>
-      simp_all [Op.apply, Op.ghost, State.sendOpen, State.isRecvEndStream, State.isClosed]
-  | recvOpen eos info =>
-    state_cases s <;> cases eos <;> cases info <;> constructor <;>
-      simp_all [Op.apply, Op.ghost, State.recvOpen, State.isRecvEndStream, State.isClosed]
-  | reserveRemote =>
-    state_cases s <;> constructor <;>
-      simp_all [Op.apply, Op.ghost, State.reserveRemote, State.isRecvEndStream, State.isClosed]
-  | reserveLocal =>
-    state_cases s <;> constructor <;>
-      simp_all [Op.apply, Op.ghost, State.reserveLocal, State.isRecvEndStream, State.isClosed]
-  | recvClose =>
-    state_cases s <;> constructor <;>
-      simp_all [Op.apply, Op.ghost, State.recvClose, State.isRecvEndStream, State.isClosed]
-  | sendClose =>
-    state_cases s <;> constructor <;>
-      simp_all [Op.apply, Op.ghost, State.sendClose, State.isRecvEndStream, State.isClosed]
-  | recvReset sid r q =>
-    state_cases s <;> cases q <;> constructor <;>
-      simp_all [Op.apply, Op.ghost, State.recvReset, State.isRecvEndStream, State.isClosed]
-  | handleError e' =>
-    state_cases s <;> constructor <;>
-      simp_all [Op.apply, Op.ghost, State.handleError, State.isRecvEndStream, State.isClosed]
-  | recvEof =>
-    state_cases s <;> constructor <;>
-      simp_all [Op.apply, Op.ghost, State.recvEof, State.isRecvEndStream, State.isClosed]
-  | setReset sid r i =>
-    state_cases s <;> constructor <;>
-      simp_all [Op.apply, Op.ghost, State.setReset, State.isRecvEndStream, State.isClosed]
-  | setScheduledReset r =>
-    state_cases s <;> constructor <;>
-      simp_all [Op.apply, Op.ghost, State.setScheduledReset, State.isRecvEndStream, State.isClosed]
+  | sendOpen eos => state_cases s <;> cases eos <;> wf_step State.sendOpen
+  | recvOpen eos info => state_cases s <;> cases eos <;> cases info <;> wf_step State.recvOpen
+  | reserveRemote => state_cases s <;> wf_step State.reserveRemote
+  | reserveLocal => state_cases s <;> wf_step State.reserveLocal
+  | recvClose => state_cases s <;> wf_step State.recvClose
+  | sendClose => state_cases s <;> wf_step State.sendClose
+  | recvReset sid r q => state_cases s <;> cases q <;> wf_step State.recvReset
+  | handleError e' => state_cases s <;> wf_step State.handleError
+  | recvEof => state_cases s <;> wf_step State.recvEof
+  | setReset sid r i => state_cases s <;> wf_step State.setReset
+  | setScheduledReset r => state_cases s <;> wf_step State.setScheduledReset
 
 /-- **reachable_states**: every reachable (state, history) pair is well-formed -/
 theorem reachable_states {s : State} {g : Ghost} (h : ReachableG s g) : WF s g := by
@@ -788,5 +781,138 @@ theorem eos_accepted_at_most_once {s : State} {g : Ghost} (h : ReachableG s g)
 theorem eos_then_ensureRecvOpen_ok {s : State} {g : Ghost} (h : ReachableG s g)
     (hg : g.eosRecv = true) (hr : g.localReset = false) : s.ensureRecvOpen = .ok false :=
   (ensureRecvOpen_false_iff s).2 (.inl ((reachable_states h).eos_kept hg hr))
+
+-- ===================================================================== §6 the refinement in one statement
+
+/-- the Figure-2 event an operation stands for.  `none`: no frame of Figure 2 crosses the wire
+    (`handle_error`, `recv_eof`, `set_scheduled_reset`), or the frame is a 1xx HEADERS without
+    END_STREAM (not an `H` of the figure).  A 1xx *with* END_STREAM is treated by the code as a final
+    header block (`recvOpen_informational_eos`). -/
+def Op.ev : Op → Option Ev
+  | .sendOpen eos => some (.sendH eos)
+  | .recvOpen true _ => some (.recvH true)
+  | .recvOpen false false => some (.recvH false)
+  | .recvOpen false true => none
+  | .reserveRemote => some .recvPP
+  | .reserveLocal => some .sendPP
+  | .recvClose => some .recvES
+  | .sendClose => some .sendES
+  | .recvReset .. => some .recvR
+  | .setReset .. => some .sendR
+  | .handleError _ | .recvEof | .setScheduledReset _ => none
+
+/-- the call answered `Ok` / did not panic (the infallible ones always "succeed") -/
+def Op.succeeds (s : State) : Op → Bool
+  | .sendOpen eos => isOk (s.sendOpen eos).2
+  | .recvOpen eos info => isOk (s.recvOpen eos info).2
+  | .reserveRemote => isOk s.reserveRemote.2
+  | .reserveLocal => isOk s.reserveLocal.2
+  | .recvClose => isOk s.recvClose.2
+  | .sendClose => s.sendClose.isSome
+  | _ => true
+
+/-- the complete list of places where `State` accepts what Figure 2 forbids:
+    `recv_reset` on an idle stream, `set_reset` on an idle or closed stream -/
+def Op.lenient (s : State) : Op → Bool
+  | .recvReset .. => s.isIdle
+  | .setReset .. => s.isIdle || s.isClosed
+  | _ => false
+
+/-- a failing call never changes the state -/
+theorem op_fail_unchanged (s : State) (op : Op) (h : op.succeeds s = false) : op.apply s = s := by
+  cases op with
+  | sendOpen eos => state_cases s <;> cases eos <;> simp_all [Op.apply, Op.succeeds, State.sendOpen]
+  | recvOpen eos info =>
+    state_cases s <;> cases eos <;> cases info <;> simp_all [Op.apply, Op.succeeds, State.recvOpen]
+  | reserveRemote => state_cases s <;> simp_all [Op.apply, Op.succeeds, State.reserveRemote]
+  | reserveLocal => state_cases s <;> simp_all [Op.apply, Op.succeeds, State.reserveLocal]
+  | recvClose => state_cases s <;> simp_all [Op.apply, Op.succeeds, State.recvClose]
+  | sendClose => state_cases s <;> simp_all [Op.apply, Op.succeeds, State.sendClose]
+  | recvReset sid r q => simp [Op.succeeds] at h
+  | handleError e => simp [Op.succeeds] at h
+  | recvEof => simp [Op.succeeds] at h
+  | setReset sid r i => simp [Op.succeeds] at h
+  | setScheduledReset r => simp [Op.succeeds] at h
+
+/-- **op_refines**: every successful operation that stands for a Figure-2 event, outside the three
+    lenient spots, is a legal RFC 9113 transition between the abstracted states -/
+theorem op_refines (s : State) (op : Op) (ev : Ev) (hev : op.ev = some ev)
+    (hok : op.succeeds s = true) (hl : op.lenient s = false) :
+    step (phase s) ev = some (phase (op.apply s)) := by
+  cases op with
+  | sendOpen eos =>
+    simp only [Op.ev, Option.some.injEq] at hev; subst hev
+    exact sendOpen_refines' s eos hok
+  | recvOpen eos info =>
+    cases eos <;> cases info <;> simp only [Op.ev, Option.some.injEq, reduceCtorEq] at hev <;> subst hev
+    · exact recvOpen_refines' s false hok
+    · exact recvOpen_refines' s true hok
+    · simp only [Op.succeeds, Op.apply] at hok ⊢
+      rw [recvOpen_informational_eos] at hok ⊢
+      exact recvOpen_refines' s true hok
+  | reserveRemote =>
+    simp only [Op.ev, Option.some.injEq] at hev; subst hev
+    state_cases s <;> simp_all [Op.apply, Op.succeeds, State.reserveRemote, phase, step]
+  | reserveLocal =>
+    simp only [Op.ev, Option.some.injEq] at hev; subst hev
+    state_cases s <;> simp_all [Op.apply, Op.succeeds, State.reserveLocal, phase, step]
+  | recvClose =>
+    simp only [Op.ev, Option.some.injEq] at hev; subst hev
+    state_cases s <;> simp_all [Op.apply, Op.succeeds, State.recvClose, phase, step]
+  | sendClose =>
+    simp only [Op.ev, Option.some.injEq] at hev; subst hev
+    state_cases s <;> simp_all [Op.apply, Op.succeeds, State.sendClose, phase, step]
+  | recvReset sid r q =>
+    simp only [Op.ev, Option.some.injEq] at hev; subst hev
+    have : phase s ≠ .idle := by
+      intro hp; rw [← isIdle_iff] at hp; simp [Op.lenient, hp] at hl
+    exact recvReset_refines s sid r q this
+  | setReset sid r i =>
+    simp only [Op.ev, Option.some.injEq] at hev; subst hev
+    simp only [Op.lenient, Bool.or_eq_false_iff] at hl
+    have h1 : phase s ≠ .idle := by
+      intro hp; rw [← isIdle_iff] at hp; simp [hp] at hl
+    have h2 : phase s ≠ .closed := by
+      intro hp; rw [← isClosed_iff] at hp; simp [hp] at hl
+    exact setReset_refines s sid r i h1 h2
+  | handleError e => simp [Op.ev] at hev
+  | recvEof => simp [Op.ev] at hev
+  | setScheduledReset r => simp [Op.ev] at hev
+
+/-- **op_forbidden**: when the RFC forbids the event, the operation fails (state unchanged, see
+    `op_fail_unchanged`) -- or it is one of the three lenient spots -/
+theorem op_forbidden (s : State) (op : Op) (ev : Ev) (hev : op.ev = some ev)
+    (h : step (phase s) ev = none) : op.succeeds s = false ∨ op.lenient s = true := by
+  cases hs : op.succeeds s
+  · exact .inl rfl
+  · right
+    cases hl : op.lenient s
+    · have := op_refines s op ev hev hs hl
+      rw [h] at this; cases this
+    · rfl
+
+/-- a 1xx HEADERS without END_STREAM is a stutter step of the life cycle, except on an idle stream
+    (which it opens) -/
+theorem op_interim_stutter (s : State) (hok : (Op.recvOpen false true).succeeds s = true)
+    (hi : s.isIdle = false) : (Op.recvOpen false true).apply s = s := by
+  state_cases s <;> simp_all [Op.apply, Op.succeeds, State.recvOpen, State.isIdle]
+
+/-- a history made of successful Figure-2 operations outside the lenient spots -/
+def Legal (s : State) : List Op → Prop
+  | [] => True
+  | op :: ops => (op.ev).isSome = true ∧ op.succeeds s = true ∧ op.lenient s = false ∧ Legal (op.apply s) ops
+
+/-- **trace_refines**: along such a history the abstracted state follows `Spec.Lifecycle.steps`
+    on the corresponding event sequence; in particular that event sequence is RFC-legal -/
+theorem trace_refines (s : State) (ops : List Op) (h : Legal s ops) :
+    Spec.Lifecycle.steps (phase s) (ops.filterMap Op.ev) = some (phase (runOps s ops)) := by
+  induction ops generalizing s with
+  | nil => rfl
+  | cons op ops ih =>
+    obtain ⟨h1, h2, h3, h4⟩ := h
+    obtain ⟨ev, hev⟩ := Option.isSome_iff_exists.1 h1
+    have hstep := op_refines s op ev hev h2 h3
+    simp only [List.filterMap_cons, hev, Spec.Lifecycle.steps, hstep, Option.bind_some]
+    exact ih _ h4
 
 end H2V.Lemmas.Comp
